@@ -1272,6 +1272,11 @@ pub fn window_grid() -> Vec<(i64, u64)> {
         }
         g.push((0, e));
     }
+    // X-Amz-Expires = 0 is not an expiry (it must be a positive integer): refused whatever the age, also for a signing time in
+    // the future inside the skew tolerance, where "now - date > expires" does not fire
+    for a in [0, GRID_MARGIN, -GRID_MARGIN, -890] {
+        g.push((a, 0));
+    }
     // the future side: inside the tolerance, just beyond it, far beyond
     for e in [1u64, 60, 899, 900, 3600, 4_294_967_295] {
         for a in [-GRID_MARGIN, -890, -905, -1800] {
